@@ -6,6 +6,7 @@ import (
 	"go/token"
 	"go/types"
 	"math/big"
+	"os"
 	"sort"
 	"strings"
 	"time"
@@ -730,6 +731,11 @@ func (vc *VC) findLoops() {
 			for _, ins := range b.Instrs {
 				root := storeRoot(ins)
 				dec := decoderTarget(ins)
+				if os.Getenv("GOCV_TRACE") != "" {
+					if n := len(vc.P.instrMods(ins, func(bb *ssa.BasicBlock) bool { return li.body[bb] })); n > 40 {
+						fmt.Fprintf(os.Stderr, "trace: loop in %s: %s modifies %d heaps\n", vc.key, ins.String(), n)
+					}
+				}
 				for _, h := range vc.P.instrMods(ins, func(bb *ssa.BasicBlock) bool { return li.body[bb] }) {
 					li.mods[h] = true
 					if dec != nil && h != "$next" {
@@ -1510,7 +1516,7 @@ func (vc *VC) instr(ins ssa.Instruction) {
 		vc.pre.declFun("fv_fn", "(Int) Int")
 		vc.pre.declFun("fv_recv", "(Int) Int")
 		if f, ok := ins.Fn.(*ssa.Function); ok {
-			if strings.HasSuffix(f.Name(), "$bound") && len(ins.Bindings) == 1 {
+			if strings.HasSuffix(f.Name(), "$bound") && len(ins.Bindings) == 1 && vc.pre.sortOf(ins.Bindings[0].Type()) == "Int" {
 				vc.assume(fmt.Sprintf("(and (not (= %s 0)) (= (fv_fn %s) %d) (= (fv_recv %s) %s))", c, c, vc.P.fnID(funcKey(f)), c, vc.val(ins.Bindings[0])))
 			} else {
 				vc.assume(fmt.Sprintf("(and (not (= %s 0)) (= (fv_fn %s) %d))", c, c, vc.P.fnID(funcKey(f))))
